@@ -29,7 +29,7 @@ def run(ctx):
         raise vlib.Undecided("mboxfs-c11 failed (strace recording / replay): rc=%d %s" % (p.returncode, p.stderr[-3000:]))
     st = json.loads(p.stdout.strip().splitlines()[-1])
     for op, proto in st["protocols"].items():
-        if proto not in KNOWN:
+        if proto and proto not in KNOWN:      # (an operation that is refused before it touches the file system has no protocol)
             msg = "SPEC-DRIFT: %s issues the file-system calls [%s], a protocol MailboxFS.tla does not describe (not a violation)" % (op, proto)
             print(msg)
             ctx.drift.append({"op": op, "protocol": proto})
